@@ -329,6 +329,153 @@ pub fn lzw_encode(data: &[u8], early: bool, clear_every: Option<usize>) -> Vec<u
     bw.finish()
 }
 
+/// choices a conforming LZW encoder is free to make
+#[derive(Clone, Debug)]
+pub struct LzwOpts {
+    /// write a clear-table code first (the specification asks for it; readers cope without)
+    pub start_clear: bool,
+    /// extra clear-table codes: after that many codes since the last one
+    pub clear_every: Option<usize>,
+    /// let the table fill up completely (entry 4095) before clearing, instead of clearing a little earlier
+    pub fill_table: bool,
+    /// with a full table, emit that many further codes (no new entries) before the clear-table code
+    pub deferred: usize,
+    /// per phrase: percentage chance to stop matching early (a shorter phrase than the longest match)
+    pub cut_percent: u64,
+}
+
+impl LzwOpts {
+    pub fn greedy() -> LzwOpts {
+        LzwOpts { start_clear: true, clear_every: None, fill_table: false, deferred: 0, cut_percent: 0 }
+    }
+}
+
+/// PDF LZW encoder with the encoder's freedoms spelled out (see `LzwOpts`); `lzw_encode` is the plain case
+pub fn lzw_encode_opts(data: &[u8], early: bool, o: &LzwOpts, rng: &mut Rng) -> Vec<u8> {
+    let mut bw = BitWriter { out: vec![], acc: 0, nb: 0 };
+    let mut dict: HashMap<Vec<u8>, u32> = HashMap::new();
+    let mut next = 258u32;
+    let mut width = 9u32;
+    let mut since_clear = 0usize;
+    let mut full_codes = 0usize;
+    let e = if early { 1 } else { 0 };
+    if o.start_clear {
+        bw.put(256, width);
+    }
+    let mut i = 0;
+    while i < data.len() {
+        // longest match starting at i, possibly cut short
+        let mut len = 1;
+        let mut code = data[i] as u32;
+        let mut l = 2;
+        while i + l <= data.len() {
+            match dict.get(&data[i..i + l]) {
+                Some(&c) => {
+                    if o.cut_percent > 0 && rng.below(100) < o.cut_percent { break; }
+                    len = l;
+                    code = c;
+                    l += 1;
+                }
+                None => break,
+            }
+        }
+        bw.put(code, width);
+        since_clear += 1;
+        let rest = i + len < data.len();
+        if next < 4096 {
+            if rest {
+                dict.insert(data[i..i + len + 1].to_vec(), next);
+            }
+            // the reader adds an entry for every code but the first one after a clear-table code; the width
+            // follows the reader's table (which lags by one entry), see Spec/Lzw.lean
+            next += 1;
+            if next + e > (1 << width) && width < 12 {
+                width += 1;
+            }
+        } else {
+            full_codes += 1;
+        }
+        i += len;
+        let limit = if o.fill_table { 4096 } else { 4093 };
+        let table_done = next >= limit && (!o.fill_table || full_codes >= o.deferred);
+        if rest && (table_done || o.clear_every.map(|n| since_clear >= n).unwrap_or(false)) {
+            bw.put(256, width);
+            dict.clear();
+            next = 258;
+            width = 9;
+            since_clear = 0;
+            full_codes = 0;
+        }
+    }
+    bw.put(257, width);
+    bw.finish()
+}
+
+/// A random *valid code sequence* built on the reader's side of the protocol (every such sequence is what
+/// some conforming, not necessarily greedy, encoder emits): literals, table entries with a bias to the most
+/// recent ones, the not-yet-defined code `next` (KwKwK) whenever it is allowed, clear-table codes, and
+/// `after_full` further codes once entry 4095 exists. Returns (decoded bytes, packed stream).
+pub fn lzw_random_codes(rng: &mut Rng, early: bool, n_codes: usize, after_full: usize, max_word: usize) -> (Vec<u8>, Vec<u8>) {
+    let mut bw = BitWriter { out: vec![], acc: 0, nb: 0 };
+    let mut table: Vec<Vec<u8>> = vec![];
+    let mut width = 9u32;
+    let mut prev: Option<Vec<u8>> = None;
+    let mut out = vec![];
+    let mut full_codes = 0usize;
+    let e = if early { 1 } else { 0 };
+    if !rng.chance(1, 8) {
+        bw.put(256, width);
+    }
+    for _ in 0..n_codes {
+        let next = 258 + table.len() as u32;
+        let full = next >= 4096;
+        if (full && full_codes >= after_full) || rng.chance(1, 3000) {
+            bw.put(256, width);
+            table.clear();
+            width = 9;
+            prev = None;
+            full_codes = 0;
+            continue;
+        }
+        // pick a code and its word
+        let pick = rng.below(100);
+        let (code, word): (u32, Vec<u8>) = {
+            let kwkwk_ok = prev.is_some() && !full;
+            let recent = |rng: &mut Rng, table: &Vec<Vec<u8>>| -> Option<(u32, Vec<u8>)> {
+                if table.is_empty() { return None; }
+                let back = rng.usize(table.len().min(4));
+                let i = table.len() - 1 - back;
+                Some((258 + i as u32, table[i].clone()))
+            };
+            let cand = if pick < 30 { None }
+                else if pick < 50 && kwkwk_ok { let p = prev.clone().unwrap(); let mut w = p.clone(); w.push(p[0]); Some((next, w)) }
+                else if pick < 85 { recent(rng, &table) }
+                else if !table.is_empty() { let i = rng.usize(table.len()); Some((258 + i as u32, table[i].clone())) }
+                else { None };
+            match cand {
+                Some((c, w)) if w.len() <= max_word => (c, w),
+                _ => { let b = if rng.chance(1, 2) { rng.byte() } else { *rng.pick(b"ab") }; (b as u32, vec![b]) }
+            }
+        };
+        bw.put(code, width);
+        out.extend_from_slice(&word);
+        if let Some(p) = &prev {
+            if !full {
+                let mut entry = p.clone();
+                entry.push(word[0]);
+                table.push(entry);
+                if next >= (1u32 << width) - 1 - e && width < 12 {
+                    width += 1;
+                }
+            }
+        }
+        if full { full_codes += 1; }
+        prev = Some(word);
+    }
+    bw.put(257, width);
+    (out, bw.finish())
+}
+
 /// reference PDF LZW decoder: None = invalid code stream
 pub fn lzw_decode_ref(data: &[u8], early: bool) -> Option<Vec<u8>> {
     let mut out = vec![];
